@@ -220,36 +220,32 @@ theorem step_rel (hQ : Q.falsyRoute = false) (h : Rel E pd pu) :
     cases hk : E[k]? with
     | none => simp only [Option.map_none]; exact good_err _ _ _
     | some cd =>
-      simp only [Option.map_some, exceeded_none]
-      by_cases hex : exceeded cd.maxDepth (c.depth + 1) = true
-      · -- the limit rejects: nothing the unlimited run produces here is within the limit
-        simp only [hex, if_true]
-        apply good_err_left
-        intro r hr
-        simp only [Bool.false_eq_true, if_false] at hr
-        cases v with
-        | dict kvs =>
-          obtain ⟨fs, _, rfl⟩ := (mapOut_fst_ok _ _ r).1 hr
-          simp [within, hk, hex]
-        | tok n => cases hr
-        | none => cases hr
-        | list vs => cases hr
-      · simp only [hex, Bool.false_eq_true, if_false]
-        cases v with
-        | tok n => exact good_err _ _ _
-        | none => exact good_err _ _ _
-        | list vs => exact good_err _ _ _
-        | dict kvs =>
-          have hw : ∀ fs, within E c.depth (Res.data k fs) = fs.all (fun p => within E (c.depth + 1) p.2) := by
-            intro fs
-            have : exceeded cd.maxDepth (c.depth + 1) = false := by simpa using hex
-            simp [within, hk, this, withinF_eq]
-          apply mapOut_good (Res.data k) (fun fs => fs.all (fun p => within E (c.depth + 1) p.2)) _ hw
-          have hd' : c.depth + 1 = c'.depth + 1 := by rw [hd]
-          apply failIf_good
-          split
-          · exact parseDF_good hQ h ⟨c.depth + 1, cd.mode, cd.maxDepth⟩ ⟨c'.depth + 1, cd.mode, none⟩ hd' rfl _ _
-          · exact parseFF_good hQ h ⟨c.depth + 1, cd.mode, cd.maxDepth⟩ ⟨c'.depth + 1, cd.mode, none⟩ hd' rfl _ _
+      simp only [Option.map_some, exceeded_none, ← hm]
+      cases hu : unwrapData c.mode v with
+      | none => exact good_err _ _ _
+      | some v1 =>
+        simp only [Bool.false_eq_true, if_false]
+        cases ht : toDict cd.mode v1 with
+        | none => split <;> exact good_err _ _ _
+        | some kvs =>
+          by_cases hex : exceeded cd.maxDepth (c.depth + 1) = true
+          · -- the limit rejects: nothing the unlimited run produces here is within the limit
+            simp only [hex, if_true]
+            apply good_err_left
+            intro r hr
+            obtain ⟨fs, _, rfl⟩ := (mapOut_fst_ok _ _ r).1 hr
+            simp [within, hk, hex]
+          · simp only [hex, Bool.false_eq_true, if_false]
+            have hw : ∀ fs, within E c.depth (Res.data k fs) = fs.all (fun p => within E (c.depth + 1) p.2) := by
+              intro fs
+              have : exceeded cd.maxDepth (c.depth + 1) = false := by simpa using hex
+              simp [within, hk, this, withinF_eq]
+            apply mapOut_good (Res.data k) (fun fs => fs.all (fun p => within E (c.depth + 1) p.2)) _ hw
+            have hd' : c.depth + 1 = c'.depth + 1 := by rw [hd]
+            apply failIf_good
+            split
+            · exact parseDF_good hQ h ⟨c.depth + 1, cd.mode, cd.maxDepth⟩ ⟨c'.depth + 1, cd.mode, none⟩ hd' rfl _ _
+            · exact parseFF_good hQ h ⟨c.depth + 1, cd.mode, cd.maxDepth⟩ ⟨c'.depth + 1, cd.mode, none⟩ hd' rfl _ _
   | list t =>
     simp only [step, ← hm]
     cases wrapSeq c.mode v with
@@ -265,12 +261,10 @@ theorem step_rel (hQ : Q.falsyRoute = false) (h : Rel E pd pu) :
       exact mapOut_good Res.tuple (fun rs => rs.all (within E c.depth)) _
         (fun rs => by simp [within, withinL_eq]) _ _ (parseItems_good hQ h c c' hd hm t vs)
   | dict kt t =>
-    simp only [step]
-    cases v with
-    | tok n => exact good_err _ _ _
+    simp only [step, ← hm]
+    cases toDict c.mode v with
     | none => exact good_err _ _ _
-    | list vs => exact good_err _ _ _
-    | dict kvs =>
+    | some kvs =>
       exact mapOut_good Res.dict (fun rs => rs.all (fun p => within E c.depth p.2)) _
         (fun rs => by simp [within, withinK_eq]) _ _ (parseEntries_good hQ h c c' hd hm kt t kvs)
   | union ts =>
@@ -518,7 +512,7 @@ theorem badChain_cost (W : World) (hg : ∀ m, W.leafOk m 0 = true) (hb : ∀ m,
     have : 2 * 0 + 2 + j = j + 1 + 1 := by omega
     rw [this]
     simp [parse, step, nodeEnv_get, exceeded, badChain, parseFF, seqM, lookupKey, parseField, enter, inCtx,
-      mapOut, hb, chainCost, Mode.lenient, failIf]
+      mapOut, hb, chainCost, Mode.lenient, failIf, unwrapData, toDict]
   | succ k ih =>
     intro j c
     have : 2 * (k + 1) + 2 + j = (2 * k + 2 + j) + 1 + 1 := by omega
@@ -531,7 +525,7 @@ theorem badChain_cost (W : World) (hg : ∀ m, W.leafOk m 0 = true) (hb : ∀ m,
     have hu := fun c' hc' => union_triples Q (parse W Q nodeEnv (2 * k + 2 + j)) c' hc' (badChain k) (chainCost k)
       (by rw [hkvs]; rfl) (fun c'' => ih j c'') hnone
     simp [parse, step, nodeEnv_get, exceeded, badChain, parseFF, seqM, lookupKey, parseField, enter, inCtx,
-      mapOut, hg, chainCost, hu, failIf]
+      mapOut, hg, chainCost, hu, failIf, unwrapData, toDict]
     omega
 
 /-- **The unchanged code is exponential** (negation of the cost clause, at full strength): an input of
@@ -737,15 +731,13 @@ theorem step_costFree (h : CostFree rec) : CostFree (step W Q E rec) := by
   | dict kt t =>
     simp only [noData] at hT
     simp only [step, tyWt]
-    cases v with
-    | dict kvs =>
+    cases ht : toDict c.mode v with
+    | some kvs =>
       simp only [mapOut_snd]
       refine Nat.le_trans (entries_cost (tyWt c.mode t) c kt t kvs (fun c' v' hc' => by
         have := h c' t v' hT; rwa [hc'] at this)) ?_
-      exact Nat.mul_le_mul_left _ (by simp [vsize])
-    | tok n => simp
+      exact Nat.mul_le_mul_left _ (toDict_size _ _ _ ht)
     | none => simp
-    | list vs => simp
   | union ts =>
     simp only [noData] at hT
     simp only [step]
@@ -785,15 +777,18 @@ theorem step_costOk (B : Nat) (hE : envOk B E = true) (h1 : CostFree rec) (h2 : 
     | some cd =>
       obtain ⟨hf, hnd⟩ := envOk_field B hE k cd hk
       simp only
+      cases hu : unwrapData c.mode v with
+      | none => simp
+      | some v1 =>
+      simp only
       split
       · simp
-      · cases v with
-        | tok n => simp
+      · cases ht : toDict cd.mode v1 with
         | none => simp
-        | list vs => simp
-        | dict kvs =>
+        | some kvs =>
           simp only [mapOut_snd, failIf_snd]
-          have hgoal : B * vsizeK kvs ≤ B * vsize (Val.dict kvs) := Nat.mul_le_mul_left _ (by simp [vsize])
+          have hgoal : B * vsizeK kvs ≤ B * vsize v := Nat.mul_le_mul_left _
+            (Nat.le_trans (toDict_size _ _ _ ht) (unwrapData_size _ _ _ hu))
           refine Nat.le_trans ?_ hgoal
           split
           · -- data-first
@@ -860,14 +855,12 @@ theorem step_costOk (B : Nat) (hE : envOk B E = true) (h1 : CostFree rec) (h2 : 
     simp only [noDataUnderUnion] at hT
     simp only [tyWt] at hB
     simp only [step]
-    cases v with
-    | dict kvs =>
+    cases ht : toDict c.mode v with
+    | some kvs =>
       simp only [mapOut_snd]
       refine Nat.le_trans (entries_cost B c kt t kvs (fun c' v' hc' => h2 c' t v' hT (by rw [hc']; exact hB))) ?_
-      exact Nat.mul_le_mul_left _ (by simp [vsize])
-    | tok n => simp
+      exact Nat.mul_le_mul_left _ (toDict_size _ _ _ ht)
     | none => simp
-    | list vs => simp
   | union ts =>
     simp only [noDataUnderUnion] at hT
     have := step_costFree (W := W) (Q := Q) (E := E) h1 c (.union ts) v (by simpa [noData] using hT)
@@ -982,9 +975,19 @@ theorem union_ok_mem (c : Ctx) (ts : List Ty) (v : Val) (r : Res) (hv : isNoneVa
       · cases h3
     · exact hstage _ _ h4
 
+theorem step_data_eq (c : Ctx) (k : Nat) (cd : ClassDecl) (v v1 : Val) (kvs : List (Key × Val))
+    (hk : E[k]? = some cd) (hu : unwrapData c.mode v = some v1) (ht : toDict cd.mode v1 = some kvs) :
+    step W Q E rec c (.data k) v = step W Q E rec c (.data k) (.dict kvs) := by
+  simp only [step, hk, hu, ht, unwrapData_dict, toDict_dict]
+
+theorem step_dict_eq (c : Ctx) (kt : KeyTy) (t : Ty) (v : Val) (kvs : List (Key × Val))
+    (ht : toDict c.mode v = some kvs) :
+    step W Q E rec c (.dict kt t) v = step W Q E rec c (.dict kt t) (.dict kvs) := by
+  simp only [step, ht, toDict_dict]
+
 theorem step_forced (hrec : ForcedOk E rec) : ForcedOk E (step W Q E rec) := by
   intro T v n hf c r h
-  cases hf with
+  induction hf generalizing c r with
   | zero => exact Nat.zero_le _
   | leafBad v n hv =>
     simp only [step] at h
@@ -999,12 +1002,25 @@ theorem step_forced (hrec : ForcedOk E rec) : ForcedOk E (step W Q E rec) := by
     | some cd =>
       simp only [hk] at h
       rcases hbad with hb | hb
-      · split at h
-        · cases h
-        · cases v <;> simp_all [isDict]
+      · simp only [unwrapData_scalar _ _ hb, toDict_scalar _ _ hb] at h
+        split at h <;> cases h
       · simp [fieldsOf, hk] at hb
-  | data k fields kvs f ft sub n hfl hlook hkey hsub =>
-    simp only [step] at h
+  | dataSeq k ws n _ ih =>
+    cases hk : E[k]? with
+    | none => simp [step, hk] at h
+    | some cd =>
+      cases hu : unwrapData c.mode (.list ws) with
+      | none => simp [step, hk, hu] at h
+      | some v1 =>
+        cases ht : toDict cd.mode v1 with
+        | none =>
+          simp only [step, hk, hu, ht] at h
+          split at h <;> cases h
+        | some kvs =>
+          rw [step_data_eq c k cd _ v1 kvs hk hu ht] at h
+          exact ih c.mode cd.mode v1 kvs hu ht c r h
+  | data k fields kvs f ft sub n hfl hlook hkey hsub _ =>
+    simp only [step, unwrapData, toDict] at h
     cases hk : E[k]? with
     | none => simp [hk] at h
     | some cd =>
@@ -1042,15 +1058,15 @@ theorem step_forced (hrec : ForcedOk E rec) : ForcedOk E (step W Q E rec) := by
           obtain ⟨r', hr', rfl⟩ := (mapOut_fst_ok _ _ b).1 hp
           obtain ⟨c', hc'⟩ := parseField_ok _ _ _ _ hr'
           exact Nat.le_trans (hrec ft sub n hsub c' r' hc') (rdepthF_mem _ f r' hb)
-  | listMem t vs x n hx hsub =>
+  | listMem t vs x n hx hsub _ =>
     simp only [step, wrapSeq] at h
     obtain ⟨rs, hrs, rfl⟩ := (mapOut_fst_ok _ _ r).1 h
     simpa [rdepth] using items_forced hrec c t vs rs hrs x hx n hsub
-  | tupleMem t vs x n hx hsub =>
+  | tupleMem t vs x n hx hsub _ =>
     simp only [step, wrapSeq] at h
     obtain ⟨rs, hrs, rfl⟩ := (mapOut_fst_ok _ _ r).1 h
     simpa [rdepth] using items_forced hrec c t vs rs hrs x hx n hsub
-  | listWrap t v n hl hne hsub =>
+  | listWrap t v n hl hne hsub _ =>
     simp only [step] at h
     cases hw : wrapSeq c.mode v with
     | none => simp [hw] at h
@@ -1059,7 +1075,7 @@ theorem step_forced (hrec : ForcedOk E rec) : ForcedOk E (step W Q E rec) := by
       obtain ⟨rs, hrs, rfl⟩ := (mapOut_fst_ok _ _ r).1 h
       have hx : v ∈ vs := wrapSeq_mem _ v vs hl hne hw
       simpa [rdepth] using items_forced hrec c t vs rs hrs v hx n hsub
-  | tupleWrap t v n hl hne hsub =>
+  | tupleWrap t v n hl hne hsub _ =>
     simp only [step] at h
     cases hw : wrapSeq c.mode v with
     | none => simp [hw] at h
@@ -1068,8 +1084,8 @@ theorem step_forced (hrec : ForcedOk E rec) : ForcedOk E (step W Q E rec) := by
       obtain ⟨rs, hrs, rfl⟩ := (mapOut_fst_ok _ _ r).1 h
       have hx : v ∈ vs := wrapSeq_mem _ v vs hl hne hw
       simpa [rdepth] using items_forced hrec c t vs rs hrs v hx n hsub
-  | dictMem kt t kvs key x n hx hsub =>
-    simp only [step] at h
+  | dictMem kt t kvs key x n hx hsub _ =>
+    simp only [step, toDict] at h
     obtain ⟨rs, hrs, rfl⟩ := (mapOut_fst_ok _ _ r).1 h
     simp only [parseEntries] at hrs
     obtain ⟨b, hb, hp⟩ := seqM_ok_mem _ _ rs hrs (key, x) hx
@@ -1080,9 +1096,15 @@ theorem step_forced (hrec : ForcedOk E rec) : ForcedOk E (step W Q E rec) := by
       simp only [rdepth]
       exact Nat.le_trans (hrec t x n hsub c' r' h2) (rdepthK_mem rs key r' hb)
   | dictBad kt t v n hv =>
-    simp only [step] at h
-    cases v <;> simp_all [isDict]
-  | union ts v n hv hall =>
+    simp only [step, toDict_scalar _ _ hv] at h
+    cases h
+  | dictSeq kt t ws n _ ih =>
+    cases ht : toDict c.mode (.list ws) with
+    | none => simp [step, ht] at h
+    | some kvs =>
+      rw [step_dict_eq c kt t _ kvs ht] at h
+      exact ih c.mode kvs ht c r h
+  | union ts v n hv hall _ =>
     simp only [step] at h
     obtain ⟨t, ht, c', hc'⟩ := union_ok_mem c ts v r hv h
     exact hrec t v n (hall t ht) c' r hc'
@@ -1113,6 +1135,8 @@ theorem forced_withLimit (d : Nat) (E : Env) (T : Ty) (v : Val) (n : Nat) (h : F
   | tupleWrap t v n hl hne _ ih => exact .tupleWrap t v n hl hne ih
   | dictMem kt t kvs key x n hx _ ih => exact .dictMem kt t kvs key x n hx ih
   | dictBad kt t v n hv => exact .dictBad kt t v n hv
+  | dataSeq k ws n _ ih => exact .dataSeq k ws n ih
+  | dictSeq kt t ws n _ ih => exact .dictSeq kt t ws n ih
   | union ts v n hv _ ih => exact .union ts v n hv ih
 
 /-- **Inputs deeper than the limit are rejected**: if the declared types force more than `d` nested data-class
@@ -1244,14 +1268,8 @@ theorem step_scalarFree (h : ScalarFree rec) : ScalarFree (step W Q E rec) := by
     cases hk : E[k]? with
     | none => simp [hk] at hr
     | some cd =>
-      simp only [hk] at hr
-      split at hr
-      · cases hr
-      · cases v with
-        | tok n => cases hr
-        | none => cases hr
-        | list l => simp [isScalarVal] at hv
-        | dict kvs => simp [isScalarVal] at hv
+      simp only [hk, unwrapData_scalar _ _ hv, toDict_scalar _ _ hv] at hr
+      split at hr <;> cases hr
   | list t =>
     simp only [step] at hr
     cases hw : wrapSeq c.mode v with
@@ -1369,52 +1387,56 @@ theorem step_rel2 (hQ : Q.falsyRoute = false) (hE : envUnamb E = true) (hrel : R
     | leaf => simp only [step, ← hm]; simpa only [step] using hr
     | none => simp only [step]; simpa only [step] using hr
     | data k =>
-      simp only [step, unlimited_get] at hr ⊢
       cases hk : E[k]? with
-      | none => simp [hk] at hr
+      | none => simp [step, hk] at hr
       | some cd =>
+        have hk' : (unlimited E)[k]? = some { cd with maxDepth := none } := by rw [unlimited_get, hk]; rfl
+        cases hu : unwrapData c.mode v with
+        | none => simp [step, hk, hu] at hr
+        | some v1 =>
+        cases ht : toDict cd.mode v1 with
+        | none => simp only [step, hk, hu, ht] at hr; split at hr <;> cases hr
+        | some kvs =>
+        rw [step_data_eq c k cd v v1 kvs hk hu ht] at hr
+        rw [step_data_eq c' k _ v v1 kvs hk' (by rw [← hm]; exact hu) ht]
+        simp only [step, unlimited_get, unwrapData, toDict] at hr ⊢
         have hf := envUnamb_field hE k cd hk
         simp only [hk, Option.map_some, exceeded_none, Bool.false_eq_true, if_false] at hr ⊢
         split at hr
         · cases hr
-        · cases v with
-          | tok n => cases hr
-          | none => cases hr
-          | list l => cases hr
-          | dict kvs =>
-            simp only at hr ⊢
-            refine mapOut_agree _ _ _ ?_ r hr
-            intro fs hfs
-            obtain ⟨hbf, hfs⟩ := (failIf_ok _ _ fs).1 hfs
-            refine (failIf_ok _ _ fs).2 ⟨hbf, ?_⟩
-            simp only [hbf, Bool.false_eq_true, if_false] at hfs ⊢
-            have hfield : ∀ (t : Ty) (fv : Val) (b : Res), unamb t = true →
-                (parseField Q pd ⟨c.depth + 1, cd.mode, cd.maxDepth⟩ t fv).1 = .ok b →
-                (parseField Q pu ⟨c'.depth + 1, cd.mode, none⟩ t fv).1 = .ok b := by
-              intro t fv b ht hb
-              simp only [parseField, enter_fixed Q hQ, inCtx] at hb ⊢
-              exact h2.agree { depth := c.depth + 1, mode := cd.mode, md := cd.maxDepth }
-                { depth := c'.depth + 1, mode := cd.mode, md := none } t fv b ht (by simp [hd]) rfl hb
-            split at hfs
-            · simp only [parseDF] at hfs ⊢
-              rename_i hdfs
-              simp only [hdfs, if_true]
-              refine mapOut_agree _ _ _ ?_ fs hfs
-              intro rs hrs
-              refine seqM_agree _ _ _ ?_ rs hrs
-              intro it hit b hb
-              exact mapOut_agree _ _ _ (fun b' hb' =>
-                hfield it.2.1 it.2.2 b' (hf (it.1, it.2.1) (knownItems_field _ _ it hit)) hb') b hb
-            · rename_i hdfs
-              simp only [hdfs, Bool.false_eq_true, if_false]
-              simp only [parseFF] at hfs ⊢
-              refine seqM_agree _ _ _ ?_ fs hfs
-              intro ft hft b hb
-              cases hl : lookupKey (Key.str ft.1) kvs with
-              | none => simpa [hl] using hb
-              | some fv =>
-                simp only [hl] at hb ⊢
-                exact mapOut_agree _ _ _ (fun b' hb' => hfield ft.2 fv b' (hf ft hft) hb') b hb
+        · -- the mapping case
+          refine mapOut_agree _ _ _ ?_ r hr
+          intro fs hfs
+          obtain ⟨hbf, hfs⟩ := (failIf_ok _ _ fs).1 hfs
+          refine (failIf_ok _ _ fs).2 ⟨hbf, ?_⟩
+          simp only [hbf, Bool.false_eq_true, if_false] at hfs ⊢
+          have hfield : ∀ (t : Ty) (fv : Val) (b : Res), unamb t = true →
+              (parseField Q pd ⟨c.depth + 1, cd.mode, cd.maxDepth⟩ t fv).1 = .ok b →
+              (parseField Q pu ⟨c'.depth + 1, cd.mode, none⟩ t fv).1 = .ok b := by
+            intro t fv b ht hb
+            simp only [parseField, enter_fixed Q hQ, inCtx] at hb ⊢
+            exact h2.agree { depth := c.depth + 1, mode := cd.mode, md := cd.maxDepth }
+              { depth := c'.depth + 1, mode := cd.mode, md := none } t fv b ht (by simp [hd]) rfl hb
+          split at hfs
+          · simp only [parseDF] at hfs ⊢
+            rename_i hdfs
+            simp only [hdfs, if_true]
+            refine mapOut_agree _ _ _ ?_ fs hfs
+            intro rs hrs
+            refine seqM_agree _ _ _ ?_ rs hrs
+            intro it hit b hb
+            exact mapOut_agree _ _ _ (fun b' hb' =>
+              hfield it.2.1 it.2.2 b' (hf (it.1, it.2.1) (knownItems_field _ _ it hit)) hb') b hb
+          · rename_i hdfs
+            simp only [hdfs, Bool.false_eq_true, if_false]
+            simp only [parseFF] at hfs ⊢
+            refine seqM_agree _ _ _ ?_ fs hfs
+            intro ft hft b hb
+            cases hl : lookupKey (Key.str ft.1) kvs with
+            | none => simpa [hl] using hb
+            | some fv =>
+              simp only [hl] at hb ⊢
+              exact mapOut_agree _ _ _ (fun b' hb' => hfield ft.2 fv b' (hf ft hft) hb') b hb
     | list t =>
       simp only [unamb] at hT
       simp only [step, ← hm] at hr ⊢
@@ -1433,13 +1455,12 @@ theorem step_rel2 (hQ : Q.falsyRoute = false) (hE : envUnamb E = true) (hrel : R
         exact mapOut_agree _ _ _ (fun rs hrs => items_agree c c' t vs rs hT hd hm hrs) r hr
     | dict kt t =>
       simp only [unamb] at hT
-      simp only [step] at hr ⊢
-      cases v with
-      | tok n => cases hr
-      | none => cases hr
-      | list l => cases hr
-      | dict kvs =>
-        simp only at hr ⊢
+      cases ht : toDict c.mode v with
+      | none => simp [step, ht] at hr
+      | some kvs =>
+        rw [step_dict_eq c kt t v kvs ht] at hr
+        rw [step_dict_eq c' kt t v kvs (by rw [← hm]; exact ht)]
+        simp only [step, toDict] at hr ⊢
         refine mapOut_agree _ _ _ ?_ r hr
         intro rs hrs
         simp only [parseEntries, enter_fixed Q hQ, inCtx] at hrs ⊢
@@ -1498,9 +1519,29 @@ theorem step_rel2 (hQ : Q.falsyRoute = false) (hE : envUnamb E = true) (hrel : R
         simp only [step]
       rw [this, hok] at hfail; cases hfail
     | data k =>
-      have : step W Q E pd c2 (Ty.data k) v = step W Q E pd c (Ty.data k) v := by
-        simp only [step, hc2]
-      rw [this]; exact hfail
+      cases hk : E[k]? with
+      | none => simp [step, unlimited_get, hk, Out.isOk] at hok
+      | some cd =>
+        have hk' : (unlimited E)[k]? = some { cd with maxDepth := none } := by rw [unlimited_get, hk]; rfl
+        cases hu : unwrapData c.mode v with
+        | none => simp [step, hk', ← hm, hu, Out.isOk] at hok
+        | some v1 =>
+        cases ht : toDict cd.mode v1 with
+        | none => simp [step, hk', ← hm, hu, ht, Out.isOk] at hok
+        | some kvs =>
+        cases hu2 : unwrapData c2.mode v with
+        | none => simp [step, hk, hu2, Out.isOk]
+        | some v2 =>
+        cases ht2 : toDict cd.mode v2 with
+        | none => simp only [step, hk, hu2, ht2]; split <;> rfl
+        | some kvs2 =>
+        have := dataPrep_indep _ _ _ v v1 v2 kvs kvs2 hu ht hu2 ht2
+        subst this
+        rw [step_data_eq c k cd v v1 kvs2 hk hu ht] at hfail
+        rw [step_data_eq c2 k cd v v2 kvs2 hk hu2 ht2]
+        have : step W Q E pd c2 (Ty.data k) (.dict kvs2) = step W Q E pd c (Ty.data k) (.dict kvs2) := by
+          simp only [step, hc2, unwrapData]
+        rw [this]; exact hfail
     | list t =>
       simp only [unamb] at hT
       simp only [step, ← hm] at hfail hok ⊢
@@ -1533,12 +1574,18 @@ theorem step_rel2 (hQ : Q.falsyRoute = false) (hE : envUnamb E = true) (hrel : R
           exact items_fail c2 t vs2 x hx (fun c3 hc3 => hbad c3 (by rw [hc3, hc2]))
     | dict kt t =>
       simp only [unamb] at hT
-      simp only [step] at hfail hok ⊢
-      cases v with
-      | tok n => rfl
-      | none => rfl
-      | list l => rfl
-      | dict kvs =>
+      cases ht : toDict c.mode v with
+      | none => simp [step, ← hm, ht, Out.isOk] at hok
+      | some kvs =>
+      cases ht2 : toDict c2.mode v with
+      | none => simp [step, ht2, Out.isOk]
+      | some kvs2 =>
+        have := toDict_indep _ _ v kvs kvs2 ht ht2
+        subst this
+        rw [step_dict_eq c kt t v kvs2 ht] at hfail
+        rw [step_dict_eq c' kt t v kvs2 (by rw [← hm]; exact ht)] at hok
+        rw [step_dict_eq c2 kt t v kvs2 ht2]
+        simp only [step, toDict] at hfail hok ⊢
         simp only [mapOut_isOk] at hfail hok ⊢
         simp only [parseEntries, enter_fixed Q hQ, inCtx] at hfail hok ⊢
         obtain ⟨kv, hkv, hbad⟩ := seqM_err_mem _ _ hfail
